@@ -33,6 +33,13 @@ static void bad(const char *name, int which, mzd_t *X, mzd_t *Y, mzd_t *Z, mzp_t
     case 18: mzd_pluq(X, P, Q, 0); break;
     case 19: mzd_pluq_solve_left(X, 1, P, Q, Y, 0, 1); break;
     case 20: mzd_mul(NULL, Y, Z, -1); break;
+    case 21: mzd_addmul(X, Y, Z, -1); break;
+    case 22: mzp_copy(P, Q); break;
+#if __M4RI_HAVE_OPENMP
+    case 23: mzd_mul_mp(X, Y, Z, 0); break;
+    case 24: mzd_addmul_mp(X, Y, Z, 0); break;
+    case 25: mzd_mul_mp(NULL, Y, Z, -1); break;
+#endif
     }
   }
   VH_END(&e);
@@ -42,15 +49,20 @@ static void bad(const char *name, int which, mzd_t *X, mzd_t *Y, mzd_t *Z, mzp_t
 static void baddims_case(void) {
   int m = vh_dim_small(150), l = vh_dim_small(150), n = vh_dim_small(150);
   int d = vh_pick((int[]){1, 1, 2, 63, 64, 65}, 6);
-  int which = vh_randint(0, 20);
+  #if __M4RI_HAVE_OPENMP
+  int which = vh_randint(0, 25);
+#else
+  int which = vh_randint(0, 22);
+#endif
   mzd_t *X = NULL, *Y = NULL, *Z = NULL;
   mzp_t *P = NULL, *Q = NULL;
   static const char *names[] = {"mzd_mul", "mzd_addmul", "mzd_mul_naive", "mzd_addmul_naive", "mzd_mul_m4rm", "mzd_addmul_m4rm", "mzd_add", "mzd_transpose", "mzd_copy",
                                 "mzd_concat", "mzd_stack", "mzd_submatrix", "mzd_trsm_upper_right", "mzd_trsm_lower_right", "mzd_trsm_lower_left", "mzd_trsm_upper_left",
-                                "mzd_solve_left", "mzd_ple", "mzd_pluq", "mzd_pluq_solve_left", "mzd_mul_negative_cutoff"};
+                                "mzd_solve_left", "mzd_ple", "mzd_pluq", "mzd_pluq_solve_left", "mzd_mul_negative_cutoff",
+                                "mzd_addmul_negative_cutoff", "mzp_copy", "mzd_mul_mp", "mzd_addmul_mp", "mzd_mul_mp_negative_cutoff"};
   int v = vh_randint(0, 2);
   switch (which) {
-  case 0: case 1: case 2: case 3: case 4: case 5:
+  case 0: case 1: case 2: case 3: case 4: case 5: case 23: case 24:
     /* inner dimensions differ, or the supplied result has the wrong shape */
     if (v == 0) { X = vh_mk_kind(m, n, 0); Y = vh_mk_kind(m, l, 0); Z = vh_mk_kind(l + d, n, 0); }
     else if (v == 1) { X = vh_mk_kind(m + d, n, 0); Y = vh_mk_kind(m, l, 0); Z = vh_mk_kind(l, n, 0); }
@@ -79,7 +91,9 @@ static void baddims_case(void) {
   case 16: X = vh_mk_kind(m, n, 0); Y = vh_mk_kind((m > n ? m : n) + d, l, 0); break;
   case 17: case 18: X = vh_mk_kind(m, n, 0); P = mzp_init(m + (v ? d : 0)); Q = mzp_init(n + (v ? 0 : d)); break;
   case 19: X = vh_mk_kind(m, n, 0); Y = vh_mk_kind(m > n ? m : n, l, 0); P = mzp_init(m + (v ? d : 0)); Q = mzp_init(n + (v ? 0 : d)); break;
-  case 20: Y = vh_mk_kind(m, l, 0); Z = vh_mk_kind(l, n, 0); break;
+  case 20: case 25: Y = vh_mk_kind(m, l, 0); Z = vh_mk_kind(l, n, 0); break;
+  case 21: X = vh_mk_kind(m, n, 0); Y = vh_mk_kind(m, l, 0); Z = vh_mk_kind(l, n, 0); break;
+  case 22: P = mzp_init(m); Q = mzp_init(m + d); break;     /* the target is shorter than the source */
   }
   bad(names[which], which, X, Y, Z, P, Q);
   if (P) mzp_free(P);
